@@ -901,6 +901,13 @@ def run(ctx):
                 # and both solvers meet both pairs; thorough: both pairs everywhere
                 for CR, F in (gcrfs if th else (gcrfs[(ni // 2 + ni + ki) % 2],)):
                     items.append(('gen', kind, name, NP, dim, CR, F, cname, G, 2, cap))
+            # boundary settings handed over as Step/Solve keywords (a zero is a legal CR and a legal F):
+            # quick one of the two per (solver, strategy), thorough both plus (1, 1)
+            edge = ((0.0, 0.8), (0.9, 0.0))
+            npi, dim, cname = gplan[0]
+            NP = gen_np[rde.nsample(name)][npi]
+            for CR, F in ((edge + ((1.0, 1.0),)) if th else (edge[(ni + ki) % 2],)):
+                items.append(('gen', kind, name, NP, dim, CR, F, cname, G, 2, cap))
     # --- trial-level DE
     if th:
         tplan = [(NP, d) for NP in (4, 5, 6) for d in (1, 2, 3)] + [(7, 1), (7, 2), (6, 4)]
@@ -935,6 +942,7 @@ def run(ctx):
         'de_generation': {'strategies': rde.NAMES, 'NP_by_members_needed': gen_np,
                           '(NP index, dim, cost)': gplan,
                           '(CR,F)': list(gcrfs) if th else 'one of %r per (solver, strategy), alternating' % (list(gcrfs),),
+                          'edge_(CR,F)_as_Step_keywords': '(0,0.8), (0.9,0) and (1,1)' if th else 'one of (0,0.8), (0.9,0) per (solver, strategy), alternating',
                           'generations_after_initial': G, 'deviation_bound': 2,
                           'sample_answers': 'all when <= %d ordered subsets, else %d spread over the lexicographic order' % (cap, cap)},
     }
